@@ -65,7 +65,8 @@ BOUNDS = {
              "queries half-integers of [-0.5, m+0.5]^2; planar/collinear {0,1,2}^3; 10 polyhedra (cube, box, 4 tetrahedra, L-/U-/corner voxel solids) x 3 orientation patterns; "
              "pairs: cycles n<=5, chains n<=4; multipairs L<=4 (+ all ordered pairs L=3); plane_sort subsets <=4 of 8 ring points x 5 planes; "
              "line_sort 26 directions; tri_edges 6 surfaces",
-    "thorough": "as quick plus all simple quads on {0..3}^2, all simple pentagons on {0..2}^2, chains n<=5, multipairs L<=5 and all ordered pairs L=4, "
+    "thorough": "(both tiers: curated shapes, polyhedra (mixed orientation) and planar/collinear subsets also under x -> x+1024, x*1024, x*2^-6; "
+                "inputs of the pure routines must be unchanged after the call) as quick plus all simple quads on {0..3}^2, all simple pentagons on {0..2}^2, chains n<=5, multipairs L<=5 and all ordered pairs L=4, "
                 "plane_sort subsets <=5",
 }
 MIN_CLASSES = 10
@@ -80,6 +81,16 @@ def _viol(out: Outcome, what: str, **detail):
         out.violate(what, **detail)
     else:
         out.extra["suppressed_violation_reports"] = out.extra.get("suppressed_violation_reports", 0) + 1
+
+
+# scale / translation axis: x -> s * x + t with exactly representable results, so every
+# orientation determinant stays exact and "off the boundary" means the same as before
+TRANSFORMS = {"id": (1.0, 0.0), "shift": (1.0, 1024.0), "big": (1024.0, 0.0), "small": (2.0**-6, 0.0)}
+
+
+def _tr(p, tr):
+    sc, sh = TRANSFORMS[tr]
+    return tuple(sc * c + sh for c in p)
 
 
 def _fp(poly):
@@ -103,14 +114,21 @@ def cases(tier):
         for first in range(9):
             out.append({"kind": "polygon", "m": 2, "k": 5, "first": first})
     for name in S.SHAPES:
-        out.append({"kind": "shapes", "shape": name})
+        for tr in TRANSFORMS:
+            out.append({"kind": "shapes", "shape": name, "tr": tr})
     for first in range(27 - 3):
-        out.append({"kind": "planar", "first": first})
+        out.append({"kind": "planar", "first": first, "tr": "id"})
     for lo in (0, 9, 18):
-        out.append({"kind": "collinear", "firsts": list(range(lo, lo + 9))})
+        out.append({"kind": "collinear", "firsts": list(range(lo, lo + 9)), "tr": "id"})
+    for tr in ("shift", "big", "small"):
+        for first in (0, 13):
+            out.append({"kind": "planar", "first": first, "tr": tr})
+        out.append({"kind": "collinear", "firsts": [0, 13], "tr": tr})
     for name in S.polyhedra():
         for orient in ("outward", "inward", "mixed"):
-            out.append({"kind": "polyhedron", "shape": name, "orient": orient})
+            out.append({"kind": "polyhedron", "shape": name, "orient": orient, "tr": "id"})
+        for tr in ("shift", "big", "small"):
+            out.append({"kind": "polyhedron", "shape": name, "orient": "mixed", "tr": tr})
     for name in ("cube2", "tet", "tet2", "box211"):
         out.append({"kind": "halfspace", "shape": name})
     nmax_chain = 5 if tier == "thorough" else 4
@@ -199,9 +217,12 @@ def _check_polygon(poly, queries, out: Outcome, tag, single_every=0):
     exact = [X.point_in_polygon_2d((X.fr(x), X.fr(y)), fp) for (x, y) in queries]
     xs = [p[0] for p in poly]
     ys = [p[1] for p in poly]
+    P0, Q0 = P.copy(), Q.copy()
     for default in (False, True):
         try:
             got = np.asarray(point_in_polygon(P, Q, default=default)).tolist()
+            if not (np.array_equal(P, P0) and np.array_equal(Q, Q0)):
+                _viol(out, "point_in_polygon / is_ccw_polygon modified an input array", polygon=poly)
         except Exception as e:
             _viol(out, "point_in_polygon raised", error=repr(e), polygon=poly)
             out.ev("pip/exception")
@@ -262,7 +283,9 @@ def _run_shapes(case, out: Outcome):
     from porepy.geometry.geometry_property_checks import point_in_cell
 
     base = S.SHAPES[case["shape"]]
-    queries = S.half_lattice_2d(-0.5, 3.5)
+    tr = case.get("tr", "id")
+    queries0 = S.half_lattice_2d(-0.5, 3.5)
+    queries = [_tr(q, tr) for q in queries0]
     seen = set()
     for sym in S.symmetries(base, 3):
         for rev in (False, True):
@@ -272,10 +295,12 @@ def _run_shapes(case, out: Outcome):
                 if tuple(poly) in seen:
                     continue
                 seen.add(tuple(poly))
+                if tr != "id":
+                    poly = [_tr(q, tr) for q in poly]
                 if not S.is_simple_polygon(_fp(poly)):
                     raise AssertionError("harness: curated shape is not simple")
-                _check_polygon(poly, queries, out, "shape", single_every=0)
-                if sh not in (0, 1):
+                _check_polygon(poly, queries, out, "shape" if tr == "id" else "shape-" + tr, single_every=0)
+                if sh not in (0, 1) or tr != "id":
                     continue
                 # point_in_cell, in the xy-plane without projection and in every plane with projection
                 fp = _fp(poly)
@@ -338,8 +363,10 @@ def _run_planar(case, out: Outcome):
     from porepy.geometry.geometry_property_checks import points_are_planar
 
     first = case["first"]
+    tr = case.get("tr", "id")
+    ttag = "" if tr == "id" else "-" + tr
     for rest in itertools.combinations(range(first + 1, 27), 3):
-        ps = [LAT3[first]] + [LAT3[i] for i in rest]
+        ps = [_tr(LAT3[first], tr)] + [_tr(LAT3[i], tr) for i in rest]
         if _exact_collinear(ps):
             out.ev("planar/skipped:collinear")
             continue
@@ -358,7 +385,7 @@ def _run_planar(case, out: Outcome):
                 _viol(out, "points_are_planar differs from the exact coplanarity test", points=q, got=g, expected=planar)
                 out.ev("planar/VIOLATION", key)
             else:
-                out.ev("planar/computed-normal/" + ("planar" if planar else "nonplanar"), key)
+                out.ev(f"planar{ttag}/computed-normal/" + ("planar" if planar else "nonplanar"), key)
         # with a normal supplied: the plane through the first three non-collinear points
         trip = next(t for t in itertools.combinations(range(4), 3) if not _exact_collinear([ps[i] for i in t]))
         a, b, c = (X.vec(ps[i]) for i in trip)
@@ -370,7 +397,7 @@ def _run_planar(case, out: Outcome):
                         got=g, expected=planar)
             out.ev("planar/VIOLATION", ("planar-n", tuple(ps)))
         else:
-            out.ev("planar/given-normal/" + ("planar" if planar else "nonplanar"), ("planar-n", tuple(ps)))
+            out.ev(f"planar{ttag}/given-normal/" + ("planar" if planar else "nonplanar"), ("planar-n", tuple(ps)))
 
 
 def _run_collinear(case, out: Outcome):
@@ -381,7 +408,10 @@ def _run_collinear(case, out: Outcome):
         exp = _exact_collinear(q)
         key = ("collinear", tuple(q))
         try:
+            P0 = P.copy()
             g = bool(points_are_collinear(P))
+            if not np.array_equal(P, P0):
+                _viol(out, "points_are_collinear modified its input array", points=q)
         except Exception as e:
             _viol(out, "points_are_collinear raised", error=repr(e), points=q)
             out.ev("collinear/exception", key)
@@ -390,16 +420,19 @@ def _run_collinear(case, out: Outcome):
             _viol(out, "points_are_collinear differs from the exact collinearity test", points=q, got=g, expected=exp)
             out.ev("collinear/VIOLATION", key)
         else:
-            out.ev(f"collinear/{tag}/" + ("collinear" if exp else "noncollinear"), key)
+            out.ev(f"collinear{ttag}/{tag}/" + ("collinear" if exp else "noncollinear"), key)
 
+    tr = case.get("tr", "id")
+    ttag = "" if tr == "id" else "-" + tr
+    L3 = [_tr(p, tr) for p in LAT3]
     for first in case["firsts"]:
-        p0 = LAT3[first]
+        p0 = L3[first]
         # every ordered triple starting with p0
         for i, j in itertools.permutations([k for k in range(27) if k != first], 2):
-            one([p0, LAT3[i], LAT3[j]], "n3")
+            one([p0, L3[i], L3[j]], "n3")
         # every 4-subset with smallest element p0, in three orders (the odd one out in each position class)
         for rest in itertools.combinations(range(first + 1, 27), 3):
-            ps = [p0] + [LAT3[i] for i in rest]
+            ps = [p0] + [L3[i] for i in rest]
             for order in ((0, 1, 2, 3), (3, 2, 1, 0), (1, 3, 0, 2)):
                 one([ps[i] for i in order], "n4")
 
@@ -419,11 +452,15 @@ def _run_polyhedron(case, out: Outcome):
     from porepy.geometry.geometry_property_checks import point_in_polyhedron
 
     faces, convex = S.polyhedra()[case["shape"]]
-    verts, tris = S.fan_triangles(faces)
+    tr = case.get("tr", "id")
     allp = [p for f in faces for p in f]
     lo = [min(p[i] for p in allp) - 0.5 for i in range(3)]
     hi = [max(p[i] for p in allp) + 0.5 for i in range(3)]
     queries = S.half_lattice_3d(lo, hi)
+    if tr != "id":
+        faces = [[_tr(p, tr) for p in f] for f in faces]
+        queries = [_tr(q, tr) for q in queries]
+    verts, tris = S.fan_triangles(faces)
     exact = [S.classify_point_polyhedron(q, verts, tris) for q in queries]
     planes = S.face_planes(faces)
     fl = _oriented_faces(faces, case["orient"])
@@ -432,22 +469,25 @@ def _run_polyhedron(case, out: Outcome):
     if len(keep) < len(queries):
         out.ev("polyhedron/skipped:boundary", None, n=len(queries) - len(keep))
     Q = np.array([queries[i] for i in keep], dtype=float).T.copy()
+    poly0, Q0 = [a.copy() for a in poly], Q.copy()
     try:
         got = np.asarray(point_in_polyhedron(poly, Q)).tolist()
     except Exception as e:
         _viol(out, "point_in_polyhedron raised", error=repr(e), faces=fl)
         out.ev("polyhedron/exception")
         return
+    if not (np.array_equal(Q, Q0) and all(np.array_equal(a, b) for a, b in zip(poly, poly0))):
+        _viol(out, "point_in_polyhedron modified an input array", shape=case["shape"], orientation=case["orient"])
     for gi, qi in enumerate(keep):
         q, ex = queries[qi], exact[qi]
         # is the query in the plane of some face (without being on the face)?
         qf = tuple(X.fr(c) for c in q)
         coplanar = any(X.dot(n, X.sub(qf, a)) == 0 for n, a in planes)
-        key = ("polyhedron", case["shape"], case["orient"], q)
-        cls = "polyhedron/" + ("convex" if convex else "nonconvex") + f"/{ex}" + ("/in-face-plane" if coplanar else "")
+        key = ("polyhedron", case["shape"], case["orient"], tr, q)
+        cls = "polyhedron" + ("" if tr == "id" else "-" + tr) + "/" + ("convex" if convex else "nonconvex") + f"/{ex}" + ("/in-face-plane" if coplanar else "")
         if bool(got[gi]) != (ex == "in"):
             _viol(out, "point_in_polyhedron differs from the exact inside test", point=q, got=bool(got[gi]), expected=ex,
-                  point_in_plane_of_a_face=coplanar, shape=case["shape"], orientation=case["orient"], n_faces=len(fl),
+                  point_in_plane_of_a_face=coplanar, shape=case["shape"], orientation=case["orient"], transform=tr, n_faces=len(fl),
                   faces="boundary faces of " + case["shape"] + " (mc.oracles.grpJ_shapes.polyhedra)")
             cls = "polyhedron/VIOLATION"
         out.ev(cls, key)
@@ -565,8 +605,11 @@ def _run_pairs(case, out: Outcome):
                 kwargs_list = [dict(is_circular=True, check_circular=True), dict(is_circular=True, check_circular=False)] if circ \
                     else [dict(is_circular=False)]
                 for kw in kwargs_list:
+                    arg = lines.copy()
                     try:
-                        sl, si = sort_point_pairs(lines.copy(), **kw)
+                        sl, si = sort_point_pairs(arg, **kw)
+                        if not np.array_equal(arg, lines):
+                            _viol(out, "sort_point_pairs modified its input array", lines=lines, after=arg)
                     except Exception as e:
                         _viol(out, "sort_point_pairs raised on a valid " + ("cycle" if circ else "chain"), error=repr(e), lines=lines, kwargs=kw)
                         out.ev("pairs/exception", key)
@@ -676,7 +719,10 @@ def _run_plane_sort(case, out: Outcome):
             key = ("plane_sort", case["plane"], tuple(labels)) if perm != tuple(range(k)) else None
             for given in ((True,) if coll else (True, False)):
                 try:
-                    idx = np.asarray(sort_point_plane(P.copy(), o.copy(), normal=(nrm.copy() if given else None))).ravel()
+                    argP, argo = P.copy(), o.copy()
+                    idx = np.asarray(sort_point_plane(argP, argo, normal=(nrm.copy() if given else None))).ravel()
+                    if not (np.array_equal(argP, P) and np.array_equal(argo, o)):
+                        _viol(out, "sort_point_plane modified an input array", points=P, centre=o)
                 except Exception as e:
                     _viol(out, "sort_point_plane raised", error=repr(e), points=P, centre=o, normal_given=given)
                     out.ev("plane_sort/exception", key)
@@ -712,7 +758,10 @@ def _run_line_sort(case, out: Outcome):
                 sorted_in = list(pos) == sorted(pos) or list(pos) == sorted(pos, reverse=True)
                 key = None if sorted_in else ("line_sort", case["dir"], off, pos)
                 try:
-                    idx = np.asarray(sort_points_on_line(P.copy())).ravel()
+                    argP = P.copy()
+                    idx = np.asarray(sort_points_on_line(argP)).ravel()
+                    if not np.array_equal(argP, P):
+                        _viol(out, "sort_points_on_line modified its input array", points=P)
                 except Exception as e:
                     _viol(out, "sort_points_on_line raised on collinear points", error=repr(e), points=P)
                     out.ev("line_sort/exception", key)
